@@ -385,6 +385,9 @@ def run(rep: Report, tier: str, seed: int) -> None:
                     rep.ok("position-independence")
 
     groups = [(cases[i : i + per_group], Opts()) for i in range(0, len(cases), per_group)]
+    # the translation of a type does not depend on the naming option: depth <= 1 again with naming conversion on
+    shallow = [c for c in cases if c.meta[1] <= 1]
+    groups += [(shallow[i : i + per_group], Opts(convert=True)) for i in range(0, len(shallow), per_group)]
     pending: list[tuple] = []
     run_packed(groups, build, on_group, stats)
     for _sz, _label, clause, pos, t, detail, mini, opts in sorted(pending, key=lambda x: (x[0], x[1], x[2], x[3])):
